@@ -12,7 +12,7 @@ SSO_TRUST = [
 ]
 
 CB_TRUST = [
-    "Model.Callback is a hand-written model of callbackHandleFunc / loginResponse / makeResponse / makeAssertion / createSignature: tied by source fingerprints (theorem *_source_current) and by the cb correspondence (model vs implementation on every generated callback request); NameID, attribute list and key check are the go2lean-generated definitions",
+    "Model.Callback is a hand-written model of callbackHandleFunc / loginResponse / makeResponse / makeAssertion / createSignature. Tie 1 (proof): all of these are also translated by go2lean on every run and HandlerGen.handler_refines proves that, for every answer of the environment, the regenerated handler writes exactly one reply and it is the reply of Model.Callback.callback on the input read off from the same answers (effects http.Error / sendBackResponse are returned as a trace; ParseForm, Form.Get, the storage, the stored request's getters, the key getter, the two signing functions, time.Now/Format and NewID are typed oracles). Tie 2 (correspondence): the cb differential runs model and implementation on every generated callback request, status message included. Fingerprinted remains sendBackResponse (one effect = one delivery, Callback.deliver)",
     "encoding/xml marshalling of the message, html/template and the redirect URL are not part of this model (C17/C18); the harness decodes replies with an independent token-level parser",
 ]
 
@@ -51,7 +51,7 @@ PROPS = {
         ],
     },
     "C04": {
-        "modules": ["SamlModel.Props.C04", "SamlModel.Props.Stateless"],
+        "modules": ["SamlModel.Props.C04", "SamlModel.Props.HandlerGen", "SamlModel.Props.Stateless"],
         "translated": ["BuildRedirectQuery", "getResponseCert"],
         "trusted_base": COMMON_TRUST + CB_TRUST + [
             "RSA / SHA are not modelled: C04_redirect_query states that an independent verifier recovers exactly the signed octets, the algorithm URI and the signature bytes from the query sent; that rsa.VerifyPKCS1v15 then accepts is the law verify(pk, m, sign(sk, m)) of the scheme, observed with real keys on every redirect reply",
@@ -88,16 +88,16 @@ PROPS = {
         "assumptions": [],
     },
     "C01": {
-        "modules": ["SamlModel.Props.C01", "SamlModel.Props.Stateless"],
+        "modules": ["SamlModel.Props.C01", "SamlModel.Props.HandlerGen", "SamlModel.Props.Stateless"],
         "translated": ["getResponseCert", "Attributes_GetSAML", "Attributes_GetNameID", "IdentityProvider_loginResponse", "createSignature",
-                       "Response_makeSuccessfulResponse", "Response_makeFailedResponse"],
+                       "Response_makeSuccessfulResponse", "Response_makeFailedResponse", "IdentityProvider_callbackHandleFunc", "IdentityProvider_errorResponse"],
         "trusted_base": COMMON_TRUST + CB_TRUST + [
-            "loginResponse and createSignature are translated (go2lean: Done(), SetUserinfoWithUserID with its filled argument, the key getter, time.Now / Format, NewID, createRedirectSignature / createPostSignature as typed oracles; the *Response parameter as an in-out value) and linked to the callback model by C01_generated_gate / C01_generated_failure / C01_generated_success (Props.CallbackGen): whatever the generated code returns, the model fed from the same oracle answers replies with exactly that status / that message; hand-modelled and fingerprinted remain the prologue of callbackHandleFunc and its two sendBackResponse calls",
+            "loginResponse and createSignature are translated (go2lean: Done(), SetUserinfoWithUserID with its filled argument, the key getter, time.Now / Format, NewID, createRedirectSignature / createPostSignature as typed oracles; the *Response parameter as an in-out value) and linked to the callback model by C01_generated_gate / C01_generated_failure / C01_generated_success (Props.CallbackGen): whatever the generated code returns, the model fed from the same oracle answers replies with exactly that status / that message; callbackHandleFunc itself is translated too (effect trace) and C01_generated_handler states the property on the regenerated handler for every environment: a Success Response is written only if the request carried an id, the storage knew it and Done() answered true, any other Response carries no assertion, nothing else is written",
         ],
         "assumptions": ["Done() is owned by storage: the history theorem models completion as the only operation that sets it"],
     },
     "C03": {
-        "modules": ["SamlModel.Props.C03", "SamlModel.Props.Stateless"],
+        "modules": ["SamlModel.Props.C03", "SamlModel.Props.HandlerGen", "SamlModel.Props.HandlerProps", "SamlModel.Props.Stateless"],
         "translated": ["Attributes_GetSAML", "Attributes_GetNameID", "getResponseCert", "getIssuer", "makeResponse", "makeAssertion", "Response_makeAssertionResponse", "Response_makeSuccessfulResponse", "Response_makeFailedResponse"],
         "trusted_base": COMMON_TRUST + CB_TRUST + [
             "makeSuccessfulResponse / makeAssertionResponse / makeFailedResponse / makeResponse / makeAssertion / getIssuer are translated (go2lean) and proved to build exactly the messages of the callback model (C03_success_message_is_generated, C03_failed_message_is_generated, C03_builders_refine); time.Now / Format are oracles of the generated code (Ora.now, Ora.m_Format); real functions vs generated definitions are compared on random arguments (`fn` ops, builders differential)",
@@ -170,7 +170,7 @@ PROPS = {
         "assumptions": ["scheme comparison follows net/url (scheme is lower-cased by the parser; schemes are case-insensitive per RFC 3986)"],
     },
     "C02": {
-        "modules": ["SamlModel.Props.C02", "SamlModel.Props.Stateless"],
+        "modules": ["SamlModel.Props.C02", "SamlModel.Props.HandlerGen", "SamlModel.Props.HandlerProps", "SamlModel.Props.Stateless"],
         "translated": ["GetAcsUrlAndBindingForResponse"],
         "trusted_base": COMMON_TRUST + SSO_TRUST + CB_TRUST + [
             "the auto-submit form (action attribute) is covered byte-exactly by C17; the redirect URL assembly (two fingerprinted lines of sendBackResponse) is hand-modelled as redirectURL",
@@ -178,7 +178,7 @@ PROPS = {
         "assumptions": ["callback: 'registered' is by composition with the SSO theorem - the stored pair is the pair the SSO endpoint persisted (C02_sso_persists_registered_pair); storage is trusted to return what was stored"],
     },
     "C10": {
-        "modules": ["SamlModel.Props.C10", "SamlModel.Props.Stateless"],
+        "modules": ["SamlModel.Props.C10", "SamlModel.Props.HandlerGen", "SamlModel.Props.Stateless"],
         "translated": ["getResponseCert"],
         "trusted_base": COMMON_TRUST + SSO_TRUST + CB_TRUST + [
             "Model.Metadata (metadata / certificate / readiness handlers), Model.Logout, Model.AttrQuery: hand models tied by fingerprints and their correspondences",
@@ -199,7 +199,7 @@ PROPS = {
                         "hunsigned (C11_want_signed_means_refused): the XML-DSig validator rejects a document without signature (goxmldsig; sampled)"],
     },
     "C09": {
-        "modules": ["SamlModel.Props.C09", "SamlModel.Props.Stateless"],
+        "modules": ["SamlModel.Props.C09", "SamlModel.Props.HandlerGen", "SamlModel.Props.Stateless"],
         "translated": ["certificateCheckNecessary", "checkCertificate", "equalCertificateText", "checkRequestRequiredContent", "verifyRequestDestinationOfAuthRequest",
                        "verifyRequestDestinationOfAttrQuery", "GetCertsFromKeyDescriptors", "getResponseCert", "GetAcsUrlAndBindingForResponse",
                        "signaturePostProvided", "signatureRedirectVerificationNecessary", "signaturePostVerificationNecessary", "verifyRedirectSignature", "verifyPostSignature"],
